@@ -208,6 +208,8 @@ fn c10_pass(sink: &mut Sink, rng: &mut Rng, thorough: bool) {
           let out = from_flat(&o);
           sink.emit(&format!("st_sem {} {} {} {} {}", tt, ta, tb, tp, sp), &bits_of(&out), !(a.is_empty() && b.is_empty()));
           sink.emit(&format!("st_validflat {}", st_txt(&out)), "true", !out.is_empty());
+          // the exact entries against the transliterated sweep (`Merge2D.merge2`)
+          sink.emit(&format!("st_merge {} {} {}", tt, ta, tb), &st_txt(&out), !(a.is_empty() && b.is_empty()));
         }
       }
     }
